@@ -2,6 +2,7 @@
 Oracle: the exchangeable Polya-urn / independent-draw sequence model (rt/oracles.py)."""
 import itertools
 import math
+from collections import Counter
 
 import numpy as np
 
@@ -78,6 +79,69 @@ def check_call_prior(tier, seed):
         if len(samples) < 3:
             samples.append({"ploidy": ploidy, "n_alleles": n, "genotypes": len(gens)})
     return {"bound": "ploidy x alleles %s x F {0,.05,.3,.8} x 2-4 frequency vectors" % (shapes,), "evaluations": ev, "distinct_nontrivial": nontriv, "failures": fails, "samples": samples, "exhaustive": True}
+
+
+def check_call_prior_many_alleles(tier, seed):
+    """log_genotype_prior / log_genotype_allele_prior in log space for many alleles and high ploidy (n_alleles ** ploidy
+    far beyond int64 / float range): closed form log(perms) + log Polya-urn sequence probability; flat prior given
+    implicitly (frequencies=None) and explicitly must agree"""
+    rng = np.random.default_rng(seed + 55)
+    ev = nontriv = 0
+    fails = []
+
+    def bad(key, inp, obs, exp, how=""):
+        if len(fails) < 5 and not any(f["key"] == key for f in fails):
+            fails.append({"key": key, "check": "mchap.calling.prior.log_genotype_prior", "input": inp, "observed": obs, "expected": exp, "how": how})
+
+    def log_prior(g, n, F):
+        ploidy = len(g)
+        cnt = Counter(g)
+        lp = math.lgamma(ploidy + 1) - sum(math.lgamma(c + 1) for c in cnt.values())
+        if F == 0:
+            return lp - ploidy * math.log(n)
+        disp = (1 - F) / F
+        seen = Counter()
+        for i, a in enumerate(g):
+            lp += math.log(disp / n + seen[a]) - math.log(disp + i)
+            seen[a] += 1
+        return lp
+
+    sizes = (235, 256, 1000, 65536, 2 ** 20, 2 ** 31 - 1)
+    ploidies = (2, 4, 6, 8, 16, 32) if tier == "quick" else (2, 3, 4, 6, 8, 10, 12, 16, 24, 32, 48, 63)
+    for n in sizes:
+        for ploidy in ploidies:
+            for rep in range(3 if tier == "quick" else 10):
+                k = int(rng.integers(1, min(ploidy, 4) + 1))
+                pool = rng.integers(0, n, size=k)
+                g = tuple(sorted(int(x) for x in rng.choice(pool, size=ploidy)))
+                ga = np.array(g, dtype=np.int64)
+                for F in (0.0, 0.1):
+                    exp = log_prior(g, n, F)
+                    got = float(CP.log_genotype_prior(ga, n, F, None))
+                    ev += 1
+                    nontriv += len(set(g)) > 1
+                    inp = {"genotype": list(g), "n_alleles": n, "inbreeding": F, "frequencies": None}
+                    if not (abs(got - exp) <= 1e-9 * max(1.0, abs(exp))):
+                        bad("rt/call_prior_many_alleles", inp, got, exp, "log_genotype_prior vs log multinomial / Dirichlet-multinomial closed form (n_alleles ** ploidy does not fit int64)")
+                    if n <= 65536:
+                        fr = np.full(n, 1.0 / n)
+                        got2 = float(CP.log_genotype_prior(ga, n, F, fr))
+                        if not (abs(got2 - got) <= 1e-7 * max(1.0, abs(got))):
+                            bad("rt/call_prior_flat_implicit_vs_explicit", dict(inp, frequencies="flat vector"), got2, got, "frequencies=None vs an explicit flat vector")
+                    # single-copy conditional: log P(g) - log P(g minus copy k) in closed form
+                    kk = int(rng.integers(0, ploidy))
+                    a = g[kk]
+                    rest = [x for i_, x in enumerate(g) if i_ != kk]
+                    c_rest = rest.count(a)
+                    if F == 0:
+                        expc = -math.log(n)
+                    else:
+                        disp = (1 - F) / F
+                        expc = math.log(disp / n + c_rest) - math.log(disp + ploidy - 1)
+                    gotc = float(CP.log_genotype_allele_prior(ga, kk, n, F, None))
+                    if not (abs(gotc - expc) <= 1e-9 * max(1.0, abs(expc))):
+                        bad("rt/allele_conditional_prior_many_alleles", dict(inp, position=kk), gotc, expc, "log_genotype_allele_prior vs the Polya-urn conditional")
+    return {"bound": "n_alleles %s x ploidy %s x seeded genotypes x F {0,.1}" % (sizes, ploidies), "evaluations": ev, "distinct_nontrivial": int(nontriv), "failures": fails, "samples": [], "exhaustive": False}
 
 
 def partitions(n, maxpart=None):
@@ -181,7 +245,7 @@ def check_ln_perms(tier, seed):
     return {"bound": "every dosage partition for ploidy 1..20", "evaluations": ev, "distinct_nontrivial": nontriv, "failures": fails, "samples": [{"ploidy": 20}], "exhaustive": True}
 
 
-CHECKS = [check_call_prior, check_assemble_prior, check_ln_perms]
+CHECKS = [check_call_prior, check_call_prior_many_alleles, check_assemble_prior, check_ln_perms]
 REPLAY = {
     "mchap.calling.prior.log_genotype_prior": first_failure(check_call_prior),
     "mchap.calling.prior.log_genotype_allele_prior": first_failure(check_call_prior),
